@@ -211,11 +211,16 @@ def gen_c02(repo):
     uni, classes = build(repo)
     L = [HEADER, "import MlVerif.Model.Lifecycle", "namespace MlVerif.Gen.C02", "open MlVerif.Flow MlVerif.Lifecycle", "",
          "structure Method where", "  cls : String", "  name : String", "  isFit : Bool",
-         "  returnsSelf : Bool", "  paramProg : Prog Act", "  ownProg : Prog Act", "  borrowed : List Nat", ""]
+         "  returnsSelf : Bool", "  paramProg : Prog Act", "  ownProg : Prog Act", "  borrowed : List Nat",
+         "  traceProg : Prog Act   -- hyper-parameter / attribute assignments only (trace correspondence)", ""]
     names = []
+    tables = {}
     for c in classes:
         for r in c["methods"]:
             loc, par, att = sk.Numbering(), sk.Numbering(), sk.Numbering()
+            tp = sk.simplify(sk.trace_program(r["prog"]), sk.TRACE_ATOMS)
+            ttxt = sk.render(tp, loc, par, att)      # rendered FIRST: fixes the numbering of parameters / attributes
+            tables[(c["class"], r["method"])] = {"index": len(names), "params": dict(par.tab), "attrs": dict(att.tab)}
             pp = drop_useless_kills(sk.simplify(r["prog"], PARAM_ATOMS))
             op, relevant = slice_ownership(sk.simplify(r["prog"], OWN_ATOMS))
             ptxt = sk.render(pp, loc, par, att)
@@ -235,13 +240,15 @@ def gen_c02(repo):
                 "true" if r.get("returns_self", True) else "false"))
             L.append("  paramProg := %s," % ptxt)
             L.append("  ownProg := %s," % otxt)
-            L.append("  borrowed := [%s] }" % ", ".join(map(str, borrowed)))
+            L.append("  borrowed := [%s]," % ", ".join(map(str, borrowed)))
+            L.append("  traceProg := %s }" % ttxt)
             L.append("")
     L.append("def methods : List Method := [")
     L.append("  " + ",\n  ".join(names))
     L.append("]")
     L.append("")
     L.append("end MlVerif.Gen.C02")
+    gen_c02.tables = tables
     return "\n".join(L) + "\n", classes
 
 
